@@ -194,7 +194,7 @@ func drop(v any, o wx.Opt) dropRule {
 			if o.OmitEmpty {
 				return mustDrop
 			}
-			if o.OmitNil {
+			if o.OmitNil && !o.KeepsEmpty {
 				return mayDrop // pretty drops empty containers under OmitNil, oj does not (Z)
 			}
 		}
@@ -203,7 +203,7 @@ func drop(v any, o wx.Opt) dropRule {
 			if o.OmitEmpty {
 				return mustDrop
 			}
-			if o.OmitNil {
+			if o.OmitNil && !o.KeepsEmpty {
 				return mayDrop
 			}
 		} else if o.OmitEmpty || o.OmitNil {
@@ -459,7 +459,9 @@ func Run(cs Case, c *vrt.Ctx) {
 			continue
 		}
 		var ms []string
-		match(tree, n, o, "$", &ms)
+		mo := o
+		mo.KeepsEmpty = !e.pretty // an empty container is not nil: the oj writers keep it under OmitNil alone
+		match(tree, n, mo, "$", &ms)
 		for _, m := range ms {
 			c.Fail("wrong-content", e.name, fmt.Sprintf("%s; output %s opt=%+v", m, clip(out), o), tags...)
 		}
